@@ -143,9 +143,14 @@ def w_step(ctx, rng, idx):
         with probe.oracle():
             v = rng.random(dims) + 0.05
             x0 = tt.TT((v * float(rng.uniform(0.5, 3.0)) / v.sum()).reshape(list(dims) + [1] * d))
+    if nz == 0 and kind != 'markov' and rng.random() < 0.3:
+        # states of tiny / huge norm (a linear-response perturbation, an unnormalised decaying solution): the equations are linear,
+        # nothing in the statement depends on the magnitude of the state
+        with probe.oracle():
+            x0 = float(10 ** rng.uniform(-14, 6)) * x0
     fn = getattr(ode, scheme + '_splitting')
     ctx.describe({'op': scheme + '_splitting', 'dims': dims, 'homogeneous': hom, 'kind': kind, 'complex': cplx, 'h': h, 'steps': N, 'normalize': nz, 'ranks': x0.ranks})
-    kw = dict(threshold=[0.0, 1e-14][int(rng.integers(0, 2))], max_rank=10 ** 4, normalize=nz)
+    kw = dict(threshold=[0.0, 1e-14, 1e-12][int(rng.integers(0, 3))], max_rank=10 ** 4, normalize=nz)
     if scheme in ('lie', 'strang') and rng.random() < 0.25:  # precomputed propagators
         coeff = [1, 1] if scheme == 'lie' else [0.5, 1]
         with probe.oracle():
